@@ -7,6 +7,7 @@ import (
 	"math/rand"
 	"os"
 	"sort"
+	"strings"
 
 	"github.com/paulmach/osm"
 	"verif/harness/wire"
@@ -1059,11 +1060,66 @@ func main() {
 		c.Trivial = n == 0
 		w.Add(c)
 	}
+	// 2b. DIRECTED sorts (independent of the seed): ascending lists with exactly one adjacent pair
+	// swapped at the first, a middle and the last position, already sorted, reversed, and "last id
+	// smallest", for sizes 2..16 (12/13 = the insertion-sort threshold of sort.Sort), every sort
+	for which := 0; which < 3; which++ {
+		for _, n := range []int{2, 3, 4, 5, 7, 8, 11, 12, 13, 14, 15, 16} {
+			asc := make([]triple, n)
+			for j := range asc {
+				asc[j] = triple{1 + (3*j)/n, int64(10 + j), 1}
+			}
+			variants := [][]triple{append([]triple(nil), asc...)}
+			for _, p := range []int{0, (n - 2) / 2, n - 2} {
+				v := append([]triple(nil), asc...)
+				v[p], v[p+1] = v[p+1], v[p]
+				variants = append(variants, v)
+			}
+			rev := make([]triple, n)
+			for j := range asc {
+				rev[j] = asc[n-1-j]
+			}
+			lastSmall := append([]triple(nil), asc...)
+			lastSmall[n-1] = triple{1, 1, 0}
+			variants = append(variants, rev, lastSmall)
+			for _, v := range variants {
+				w.Add(sortCase(which, v))
+			}
+		}
+	}
 	// 3. parse
 	fixed := []string{"", "/", ":", "node", "node/", "/1", "node/1/2", "node/1:2:3", "node/:1", "node/1:", "node/a", "node/1:b",
 		"Node/1", "node /1", " node/1", "node/1 ", "node/+1", "node/-1", "node/1:-", "node/1:+2", "node/01:002", "nodes/1", "bounds/0", "bounds/5:7",
 		"changeset/5:3", "user/1:1", "note/12", "way/9223372036854775807", "way/9223372036854775808", "relation/1_000", "node/0x10", "node/1e3",
 		"node//1", "node/1::2", "way/١", "node/1:-:", "unknown/1", "node/--1", "node/1:--"}
+	// DIRECTED compositions (independent of the seed): valid id text of every kind with every
+	// fragment inserted at every structural position (start, after the kind, after '/', after the
+	// ref, after ':', end), for all three parsers
+	{
+		seen := map[string]bool{}
+		for _, f := range fixed {
+			seen[f] = true
+		}
+		frags := []string{":-", ":", "/", "-", ":0", ":-:-", " ", "+"}
+		for _, k := range kinds {
+			name := string(k)
+			for _, tail := range []string{"", ":3", ":-"} {
+				parts := []string{name, "/", "5"}
+				if tail != "" {
+					parts = append(parts, ":", tail[1:])
+				}
+				for pos := 0; pos <= len(parts); pos++ {
+					for _, fr := range frags {
+						txt := strings.Join(parts[:pos], "") + fr + strings.Join(parts[pos:], "")
+						if !seen[txt] {
+							seen[txt] = true
+							fixed = append(fixed, txt)
+						}
+					}
+				}
+			}
+		}
+	}
 	for which := 0; which < 3; which++ {
 		for _, s := range fixed {
 			w.Add(parseCase(which, s))
